@@ -400,7 +400,9 @@ def make_case(rnd, tag):
             if not any(e[0] in ('named', 'namedl') for e in walk(bx)) and rnd.random() < 0.8:
                 bx = ('seq', (('named', 'bn', ('tok', 'a')), bx)) if rnd.random() < 0.5 else ('seq', (bx, ('namedl', 'bl', ('tok', 'c'))))
                 rules = [(n, (bx if n == base else x)) for n, x in rules]
-            rules.append(('bsub', ('seq', (('tok', 'b'), ('opt', ('tok', ','))))))
+            # (with names of its own in most cases: the node then has the fields of both rules)
+            own = ('named', 'bo', ('tok', 'b')) if rnd.random() < 0.7 else ('tok', 'b')
+            rules.append(('bsub', ('seq', (own, ('opt', ('tok', ','))))))
             ruleinfo['bsub'] = dict(params=(f'T{tag}rb' + (tail if rnd.random() < 0.5 else ''),), base=base)
             n0, x0 = rules[0]
             rules[0] = (n0, ('seq', (x0, ('opt', ('named', 'w', ('call', 'bsub'))))))
